@@ -16,12 +16,12 @@ fn patterns(seed: u64) -> Vec<(&'static str, Vec<u8>)> {
 /// data-flow oracle for one generated phrase
 fn check_phrase(ctx: &Ctx, sig: &str, out: &str, len: usize, reqs: &[Req], replay: serde_json::Value) -> bool {
     let line = out.trim_end_matches('\n'); let toks: Vec<&str> = line.split(' ').collect();
-    let handed: Vec<Vec<u8>> = reqs.iter().filter(|r| r.ok).map(|r| r.bytes.clone()).collect();
+    let handed = reqs.iter().filter(|r| r.ok).count();
     match bip39::tokens_to_entropy(&toks) {
         Err(e) => { ctx.violation(format!("{P}:new:{sig}:invalid-phrase"), format!("printed {:?}, which is not a valid BIP-39 phrase: {e:?}", trunc(line, 200)), replay); false }
         Ok(ent) => {
             if toks.len() != len || out != format!("{line}\n") { ctx.violation(format!("{P}:new:{sig}:wrong-length"), format!("{} words printed for requested length {len}", toks.len()), replay); false }
-            else if !handed.iter().any(|h| h.windows(ent.len()).any(|w| w == ent.as_slice())) { ctx.violation(format!("{P}:new:{sig}:entropy-not-from-source"), format!("entropy {} of the printed phrase is not a run of bytes returned by the entropy source ({} requests answered)", eth::hex(&ent), handed.len()), replay); false }
+            else if !carried_by(&ent, reqs) { ctx.violation(format!("{P}:new:{sig}:entropy-not-from-source"), format!("entropy {} of the printed phrase is not made of answers of the entropy source ({} requests answered)", eth::hex(&ent), handed), replay); false }
             else { true }
         }
     }
@@ -31,7 +31,7 @@ pub fn run(ctx: &Ctx) {
     ctx.sweep("length-x-pattern", "`new -n L` for L in 0..=40 x 5 byte patterns answered by the scripted source; supported lengths must print the phrase of exactly those bytes and it must parse back", (41 * pats.len()) as u64, |i| {
         let len = i as usize / pats.len(); let (pn, pb) = &pats[i as usize % pats.len()];
         let cmd = Cmd::new(&["new", "-n", &len.to_string()]);
-        let (r, reqs, full) = run_shimmed(&cmd, Build::Release, &Mode::List(vec![Some(pb.clone()), Some(vec![0x5a; 64])]), "length-x-pattern", i);
+        let (r, reqs, full) = run_shimmed(&cmd, Build::Release, &Mode::Cycle { pattern: pb.clone(), fail_at: None, once: false }, "length-x-pattern", i);
         let supported = bip39::entropy_len_for_words(len).is_some();
         let shape = format!("len={},{pn}", if supported { len.to_string() } else if len < 12 { "below-12".into() } else if len > 24 { "above-24".into() } else { "between".into() });
         let replay = full.replay("length-x-pattern", i, Build::Release);
@@ -50,13 +50,17 @@ pub fn run(ctx: &Ctx) {
             if !back.ok() { ctx.violation(format!("{P}:new:{shape}:does-not-parse-back"), format!("the tool rejects its own phrase: {}", back.describe()), replay) }
         }
     });
-    ctx.sweep("failure-at-first-request", "`new -n L` for every L in 0..=40 with the source failing: error exit, nothing printed", 41, |i| {
-        let cmd = Cmd::new(&["new", "-n", &i.to_string()]); let (r, _, full) = run_shimmed(&cmd, Build::Release, &Mode::List(vec![None]), "failure-at-first-request", i);
-        let shape = format!("len-class={},source-fails", if bip39::entropy_len_for_words(i as usize).is_some() { "supported" } else { "unsupported" });
-        ctx.sample("failure-at-first-request", || serde_json::json!({"command": trunc(&full.shown(), 300)}));
-        ctx.eval(format!("{shape}:{:?}", r.status));
-        if r.crashed() { ctx.panic_violation(format!("{P}:new:{shape}:{}", r.crash_kind()), r.describe(), full.replay("failure-at-first-request", i, Build::Release)) }
-        else if r.ok() || !r.stdout.is_empty() { ctx.violation(format!("{P}:new:{shape}:phrase-despite-failure"), format!("the entropy source failed but the tool printed {:?}", trunc(&r.line(), 120)), full.replay("failure-at-first-request", i, Build::Release)) }
+    ctx.sweep("failure-at-request-k", "`new -n L` for every L in 0..=40 with request k of the source failing (k = 0..=3, persistent and one-shot): whenever a failure was delivered, error exit and nothing printed; otherwise the phrase of the stream", 41 * 8, |i| {
+        let len = i / 8; let k = (i % 8) / 2; let once = i % 2 == 1; let pat: Vec<u8> = (1..=251u8).collect();
+        let cmd = Cmd::new(&["new", "-n", &len.to_string()]); let (r, reqs, full) = run_shimmed(&cmd, Build::Release, &Mode::Cycle { pattern: pat, fail_at: Some(k), once }, "failure-at-request-k", i);
+        let delivered = reqs.iter().any(|q| !q.ok); let supported = bip39::entropy_len_for_words(len as usize).is_some();
+        let shape = format!("len-class={},fail-at={k}{},failure-{}", if supported { "supported" } else { "unsupported" }, if once { ",once" } else { "" }, if delivered { "delivered" } else { "not-reached" });
+        ctx.sample("failure-at-request-k", || serde_json::json!({"command": trunc(&full.shown(), 300), "requests": reqs.iter().map(|q| format!("{} {}", q.len, q.ok)).collect::<Vec<_>>()}));
+        ctx.eval(format!("{shape}:{:?}", r.status)); let replay = full.replay("failure-at-request-k", i, Build::Release);
+        if r.crashed() { ctx.panic_violation(format!("{P}:new:{shape}:{}", r.crash_kind()), r.describe(), replay) }
+        else if delivered || !supported { if r.ok() || !r.stdout.is_empty() { ctx.violation(format!("{P}:new:len-class={},failure-delivered:phrase-despite-failure", if supported { "supported" } else { "unsupported" }), format!("request {k} of the entropy source failed but the tool printed {:?}", trunc(&r.line(), 120)), replay) } }
+        else if !r.ok() { ctx.violation(format!("{P}:new:{shape}:refused"), format!("no failure was delivered, yet generation failed: {}", r.describe()), replay) }
+        else { check_phrase(ctx, &shape, &r.out(), len as usize, &reqs, replay); }
     });
     // vanity search: failure injected at request k = 0..5, worker modes -j 0 / -j 1 / -j 2
     let jobs = ["0", "1", "2"];
@@ -70,7 +74,11 @@ pub fn run(ctx: &Ctx) {
         ctx.sample("vanity-failure-injection", || serde_json::json!({"command": trunc(&full.shown(), 300), "requests_seen": reqs.len()}));
         ctx.eval(format!("{shape}:{:?}", r.status));
         if r.crashed() { ctx.panic_violation(format!("{P}:new:{shape}:{}", r.crash_kind()), format!("{} (requests seen: {})", r.describe(), reqs.len()), full.replay("vanity-failure-injection", i, Build::Release)) }
-        else if r.ok() || !r.stdout.is_empty() { ctx.violation(format!("{P}:new:{shape}:phrase-despite-failure"), format!("the entropy source failed at request {k} but the tool printed {:?}", trunc(&r.line(), 120)), full.replay("vanity-failure-injection", i, Build::Release)) }
+        else if r.ok() || !r.stdout.is_empty() {
+            // legitimate only if the match was found among the answers given before the failure
+            let before: Vec<Req> = reqs.iter().take_while(|q| q.ok).cloned().collect(); let line = r.line(); let toks: Vec<&str> = line.split(' ').collect();
+            let early = bip39::tokens_to_entropy(&toks).ok().map_or(false, |ent| carried_by(&ent, &before) && address_has_prefix(&eth::address_of_secret(&curve, &key_of(&curve, &line, "", &default_path(0))), &[15, 15, 15]));
+            if early { ctx.eval("vanity-failure:matched-before-the-failure"); } else { ctx.violation(format!("{P}:new:{shape}:phrase-despite-failure"), format!("the entropy source failed at request {k} but the tool printed {:?}", trunc(&r.line(), 120)), full.replay("vanity-failure-injection", i, Build::Release)) } }
     });
     // a single failing request while every other request succeeds: the worker that hit the failure finishes first
     // (none of the first 60 answers matches, so no other worker can have finished), and the search must end with an error
@@ -84,7 +92,10 @@ pub fn run(ctx: &Ctx) {
         ctx.sample("vanity-one-shot-failure", || serde_json::json!({"command": trunc(&full.shown(), 300), "requests_seen": reqs.len()}));
         ctx.eval(format!("{shape}:{:?}", r.status));
         if r.crashed() { ctx.panic_violation(format!("{P}:new:{shape}:{}", r.crash_kind()), r.describe(), full.replay("vanity-one-shot-failure", i, Build::Release)) }
-        else if r.ok() || !r.stdout.is_empty() { ctx.violation(format!("{P}:new:{shape}:phrase-despite-failure"), format!("request {k} of the entropy source failed (and no other worker could have finished before) but the tool printed {:?} after {} requests", trunc(&r.line(), 120), reqs.len()), full.replay("vanity-one-shot-failure", i, Build::Release)) }
+        else if r.ok() || !r.stdout.is_empty() {
+            let before: Vec<Req> = reqs.iter().take_while(|q| q.ok).cloned().collect(); let line = r.line(); let toks: Vec<&str> = line.split(' ').collect();
+            let early = bip39::tokens_to_entropy(&toks).ok().map_or(false, |ent| carried_by(&ent, &before) && address_has_prefix(&eth::address_of_secret(&curve, &key_of(&curve, &line, "", &default_path(0))), &[15, 15, 15]));
+            if early { ctx.eval("vanity-one-shot:matched-before-the-failure"); } else { ctx.violation(format!("{P}:new:{shape}:phrase-despite-failure"), format!("request {k} of the entropy source failed (and the printed phrase is not made of answers given before it) but the tool printed {:?} after {} requests", trunc(&r.line(), 120), reqs.len()), full.replay("vanity-one-shot-failure", i, Build::Release)) } }
     });
     ctx.sweep("vanity-data-flow", "vanity search for each single hex digit x -j {0, 1} under a scripted stream: the printed phrase is the phrase of one of the answers the source gave", 32, |i| {
         let digit = format!("0x{:x}", i % 16); let j = ["0", "1"][(i / 16) as usize]; let len = if i % 3 == 0 { 24 } else { 12 };
